@@ -4,6 +4,13 @@ cd "$(dirname "$0")/.."
 TIER="${1:-quick}"
 tools/ensure_env.sh || exit 3
 rc=0
+# the acceptance run exports VERIF_SEED=1: run every check under that seed first (results discarded), then under the default seed (evidence kept)
+if [ "$TIER" = "quick" ] && [ -z "${SKIP_SEED1:-}" ]; then
+  for p in $(.venv/bin/python -c "import json;print(' '.join(c['property_id'] for c in json.load(open('MANIFEST.json'))['checks']))"); do
+    out=$(VERIF_SEED=1 ./check "$p" --tier quick 2>&1 | grep -v "conda\|^Caused by\|^$" | tail -1)
+    case "$out" in *"exit=0") ;; *) echo "VERIF_SEED=1: $out"; rc=1;; esac
+  done
+fi
 for p in $(.venv/bin/python -c "import json;print(' '.join(c['property_id'] for c in json.load(open('MANIFEST.json'))['checks']))"); do
   out=$(./check "$p" --tier "$TIER" 2>&1 | grep -v "conda\|^Caused by\|^$" | tail -1)
   echo "$out"
